@@ -31,6 +31,9 @@ pub struct TExtra {
     pub data: Option<Vec<u8>>,
     /// the extra points at the tree root (an ancestor of `right`), index None otherwise
     pub points_to_root: Option<Lab>,
+    /// the extra's datum was read once (put+data before any bind, while it is ungrouped)
+    #[serde(default)]
+    pub read: bool,
 }
 
 #[derive(Debug, Clone, PartialEq, Eq, Hash, Serialize, Deserialize)]
@@ -39,6 +42,10 @@ pub struct TreeSpec {
     /// nodes[0] is the root (`right`); parents precede children
     pub nodes: Vec<TNode>,
     pub extras: Vec<TExtra>,
+    /// bind the edges into odd-indexed nodes first, then the others: a chain built that way
+    /// consists of separately formed pairs linked by cross-group edges (many groups)
+    #[serde(default)]
+    pub pairs_first: bool,
 }
 
 impl TreeSpec {
@@ -98,6 +105,7 @@ impl Call {
                     format!("bind({a},{b},{l:?})")
                 }
             }
+            Call::Put(v, d) if d.len() > 64 => format!("put({v},{}…[{} bytes])", hexs(&d[..16]), d.len()),
             Call::Put(v, d) => format!("put({v},{})", hexs(d)),
             Call::Data(v) => format!("data({v})"),
             Call::NextId => "next_id()".into(),
